@@ -19,6 +19,7 @@ package c10
 
 import (
 	"fmt"
+	"regexp"
 	"sort"
 	"strings"
 	"sync"
@@ -79,7 +80,9 @@ func statements(pos *position, p string, v variant) (outcome, []string) {
 	r := reader()
 	r.DB.ResetLog()
 	bigMode.Store(v.Big)
+	curOpt = v.Opt
 	out := pos.place(r, p, v)
+	curOpt = 0
 	var st []string
 	for _, q := range r.DB.Log() {
 		if readersvc.Classify(q) == readersvc.KindVersion {
@@ -93,9 +96,8 @@ func statements(pos *position, p string, v variant) (outcome, []string) {
 // shapeOf: token shape of one statement; for list positions a comma-separated run of
 // literals counts as one literal.
 func shapeOf(toks []chsim.Token, list bool) string {
-	if !list {
-		return chsim.Shape(toks)
-	}
+	// (list is kept for documentation: since regex alternations may legitimately be rendered
+	// as lists, runs of literals are collapsed for every position)
 	var parts []string
 	for i := 0; i < len(toks); i++ {
 		s := toks[i].Shape()
@@ -126,7 +128,7 @@ func literals(toks []chsim.Token) []string {
 }
 
 func panelFor(pos *position, v variant) *panelInfo {
-	key := fmt.Sprintf("%s|%v|%d|%v|%d|%d", pos.name, v.Tick, v.Wrap, v.Big, v.Part, v.Op)
+	key := fmt.Sprintf("%s|%v|%d|%v|%d|%d|%d", pos.name, v.Tick, v.Wrap, v.Big, v.Part, v.Op, v.Opt)
 	panelMu.Lock()
 	defer panelMu.Unlock()
 	if pi, ok := panelCache[key]; ok {
@@ -185,6 +187,10 @@ func gen(rt *rapid.T) c10case {
 	if pos.ops > 1 {
 		c.Var.Op = rapid.IntRange(0, pos.ops-1).Draw(rt, "op")
 	}
+	// request options: half of the cases use the defaults, the rest one of the variants
+	if rapid.Bool().Draw(rt, "nondefault") {
+		c.Var.Opt = rapid.IntRange(1, 7).Draw(rt, "opt")
+	}
 	return c
 }
 
@@ -215,7 +221,7 @@ func pred(c c10case, o *evid.Obs) error {
 	if pi.err != nil {
 		return pi.err
 	}
-	o.Tag("pos:" + pos.name)
+	o.Tag("pos:"+pos.name, fmt.Sprintf("opt:%d", c.Var.Opt))
 	if pi.na {
 		o.Discard("variant-not-applicable")
 		o.Tag("na:" + pos.name)
@@ -275,10 +281,22 @@ func pred(c c10case, o *evid.Obs) error {
 			alts[a] = true
 		}
 	}
+	if kind == kExact && strings.Contains(out.intended, "|") {
+		// a regex alternation may legitimately be rendered branch by branch
+		if alts == nil {
+			alts = map[string]bool{}
+		}
+		for _, a := range alternationPieces(out.intended) {
+			alts[a] = true
+		}
+	}
 	for _, l := range lits {
 		if alts[l] {
 			carried++ // a legitimate piece / derived form of the intended value
 			continue
+		}
+		if dateLit.MatchString(l) {
+			continue // a day derived from the request's (or, without start/end, today's) time range
 		}
 		if pi.consts[l] {
 			// a constant of the position; it may coincide with the intended value
@@ -310,6 +328,48 @@ func pred(c c10case, o *evid.Obs) error {
 	}
 	o.Tag("carried")
 	return nil
+}
+
+var dateLit = regexp.MustCompile(`^\d{4}-\d{2}-\d{2}$`)
+
+// alternationPieces: the branches of a (possibly anchored / grouped) regex alternation,
+// split at unescaped '|', each also with its backslash escapes removed.
+func alternationPieces(re string) []string {
+	s := re
+	for _, w := range [][2]string{{"^(?:", ")$"}, {"^(", ")$"}, {"(?:", ")"}, {"(", ")"}, {"^", "$"}} {
+		if strings.HasPrefix(s, w[0]) && strings.HasSuffix(s, w[1]) && len(s) >= len(w[0])+len(w[1]) {
+			s = s[len(w[0]) : len(s)-len(w[1])]
+		}
+	}
+	var out []string
+	var cur strings.Builder
+	flush := func() {
+		raw := cur.String()
+		out = append(out, raw)
+		var un strings.Builder
+		for i := 0; i < len(raw); i++ {
+			if raw[i] == '\\' && i+1 < len(raw) {
+				i++
+			}
+			un.WriteByte(raw[i])
+		}
+		out = append(out, un.String())
+		cur.Reset()
+	}
+	for i := 0; i < len(s); i++ {
+		switch {
+		case s[i] == '\\' && i+1 < len(s):
+			cur.WriteByte(s[i])
+			cur.WriteByte(s[i+1])
+			i++
+		case s[i] == '|':
+			flush()
+		default:
+			cur.WriteByte(s[i])
+		}
+	}
+	flush()
+	return out
 }
 
 // knownLineFilter: exclude the region of finding C10-line-filter-like-escape from the main
